@@ -8,6 +8,7 @@ import (
 	sdkmath "cosmossdk.io/math"
 	sdk "github.com/cosmos/cosmos-sdk/types"
 
+	cltypes "github.com/osmosis-labs/osmosis/v31/x/concentrated-liquidity/types"
 	"github.com/osmosis-labs/osmosis/v31/zzverif/core"
 )
 
@@ -312,6 +313,7 @@ func (w *World) CheckC08(ctx sdk.Context, l *Ledger, fail func(a, s, d string), 
 	}
 	vac := res.Vacuity
 	k := w.App.ConcentratedLiquidityKeeper
+	w.probeMultiCollect(ctx, l, fail, vac)
 	qc, _ := ctx.CacheContext()
 	now := ctx.BlockTime()
 	sumSpread := [2]sdkmath.Int{sdkmath.ZeroInt(), sdkmath.ZeroInt()}
@@ -461,6 +463,69 @@ func (w *World) CheckC08(ctx sdk.Context, l *Ledger, fail func(a, s, d string), 
 			dust := ratInt(int64(l.R.EmitEvents*(len(l.Pos)+1) + l.Claims + l.LiqChanges + 2))
 			if new(big.Rat).Sub(emitted, totR).Cmp(dust) > 0 {
 				fail("c08.incentive-total-short-only-by-dust", "", fmt.Sprintf("%s: emitted %s, paid+pending %s, missing more than the dust bound %s", incDenoms[u], emitted.FloatString(6), tot, dust.FloatString(0)))
+			}
+		}
+	}
+}
+
+
+// probeMultiCollect: one MsgCollectIncentives / MsgCollectSpreadRewards naming ALL positions of an owner must leave exactly what
+// the same positions collected one message at a time (in the same order) leave: the owner's balance, the pool's two reward
+// accounts and every position's claimable amounts. Both variants run on throw-away branches of the state.
+func (w *World) probeMultiCollect(ctx sdk.Context, l *Ledger, fail func(a, s, d string), vac map[string]int64) {
+	byOwner := map[string][]uint64{}
+	var owners []string
+	for _, p := range l.Pos {
+		if _, ok := byOwner[p.Owner]; !ok {
+			owners = append(owners, p.Owner)
+		}
+		byOwner[p.Owner] = append(byOwner[p.Owner], p.ID)
+	}
+	k := w.App.ConcentratedLiquidityKeeper
+	render := func(c sdk.Context, owner string) string {
+		pp := w.pool(c)
+		s := fmt.Sprintf("owner=%s incentives-account=%s spread-account=%s", bal(w, c, core.Acc(owner)), bal(w, c, pp.GetIncentivesAddress()), bal(w, c, pp.GetSpreadRewardsAddress()))
+		for _, p := range l.Pos {
+			q, _ := c.CacheContext()
+			var cs, ci, fi sdk.Coins
+			e1 := core.Try(func() (e error) { cs, e = k.GetClaimableSpreadRewards(q, p.ID); return })
+			e2 := core.Try(func() (e error) { ci, fi, e = k.GetClaimableIncentives(q, p.ID); return })
+			s += fmt.Sprintf(" | pos %d: spread %s (%v) incentives %s forfeit %s (%v)", p.ID, cs, e1, ci, fi, e2)
+		}
+		return s
+	}
+	for _, o := range owners {
+		ids := byOwner[o]
+		if len(ids) < 2 {
+			continue
+		}
+		for _, kind := range []string{"incentives", "spread"} {
+			mk := func(ids []uint64) sdk.Msg {
+				if kind == "incentives" {
+					return &cltypes.MsgCollectIncentives{PositionIds: ids, Sender: core.Acc(o).String()}
+				}
+				return &cltypes.MsgCollectSpreadRewards{PositionIds: ids, Sender: core.Acc(o).String()}
+			}
+			one, _ := ctx.CacheContext()
+			rOne := core.Deliver(w.App, one, mk(ids))
+			each, _ := ctx.CacheContext()
+			allOK := true
+			for _, id := range ids {
+				if r := core.Deliver(w.App, each, mk([]uint64{id})); !r.OK() {
+					allOK = false
+					break
+				}
+			}
+			if !allOK {
+				continue // a position that cannot be collected alone: nothing to compare
+			}
+			vac["multi_position_collect_compared_with_single_collects"]++
+			if !rOne.OK() {
+				fail("c08.collect-of-several-positions-equals-single-collects", kind, fmt.Sprintf("%s: one message for positions %v of %s failed (%v) although each position collects alone", kind, ids, o, rOne.Err))
+				continue
+			}
+			if a, b := render(one, o), render(each, o); a != b {
+				fail("c08.collect-of-several-positions-equals-single-collects", kind, fmt.Sprintf("%s, positions %v of %s: after ONE message: %s ;; after one message per position: %s", kind, ids, o, a, b))
 			}
 		}
 	}
